@@ -355,6 +355,41 @@ def _r155(ck, prog, cfg):
         fc = [(b, t) for b, t in f.calls() if is_callee(t, r"RespCodec::find_crlf$")]
         ck.check(len(fc) == 1, "R15.5", "%s:find_crlf%s" % (name, _tag(cfg)), "find_crlf call not found exactly once", f.where())
         for b, t in fc:
+            # combinator forms: find_crlf(..).ok_or_else(|| "Incomplete".to_string())? / .map_or_else(|| Err("Incomplete".."), ..)
+            handled = False
+            if "p" not in t["dest"]:
+                vals, refs = lib2.value_aliases(f, t["dest"]["l"])
+                for cb, ct in f.calls():
+                    if is_callee(ct, r"Option::<usize>::(ok_or_else|map_or_else|ok_or|map_or)\b") and ct["args"]:
+                        a0 = op_place(ct["args"][0]) if "c" not in ct["args"][0] else None
+                        if a0 is None or a0["l"] not in vals:
+                            continue
+                        handled = True
+                        texts = []
+                        if len(ct["args"]) > 1:
+                            s1 = src_of_operand(f, ct["args"][1])
+                            if s1.kind == "agg" and s1.rv.get("ak") == "closure":
+                                cfn = prog.fns.get(s1.rv["n"])
+                                if cfn is not None:
+                                    texts = [_lit(cfn, tt["args"][0]) for _, tt in cfn.calls() if is_callee(tt, r"ToString>::to_string$") and tt["args"]]
+                            else:
+                                cur = s1
+                                hops = 0
+                                while cur.kind in ("agg", "call") and hops < 4:
+                                    if cur.kind == "call" and is_callee(cur.term, r"ToString>::to_string$"):
+                                        texts = [_lit(f, cur.term["args"][0])]
+                                        break
+                                    nxt = (cur.rv.get("ops") or [None])[0] if cur.kind == "agg" else (cur.term["args"] or [None])[0]
+                                    if nxt is None:
+                                        break
+                                    cur = src_of_operand(f, nxt)
+                                    hops += 1
+                        n += 1
+                        ck.check(texts == ['"Incomplete"'], "R15.5", "%s:no-terminator-is-incomplete%s" % (name, _tag(cfg)),
+                                 "a line without terminator is not reported as Incomplete (%s): a proper prefix of a valid frame would be a "
+                                 "protocol error" % texts, f.where(t["ln"]), detail="None -> Err(\"Incomplete\") via %s" % callee(ct).rsplit("::", 1)[-1])
+            if handled:
+                continue
             for sb in sorted(f.reachable_blocks()):
                 si = switch_info(f, sb)
                 if si and si["kind"] == "discr" and "p" not in si["place"] and si["place"]["l"] == t["dest"]["l"]:
